@@ -118,9 +118,9 @@ namespace cds { namespace gc { namespace dhp {
 #include <dtor.inc>
 #include <alloc_thread_data.inc>
 #include <free_thread_data.inc>
-    typedef std::vector<void*, allocator<void*>> hp_vector;
-#include <copy_hazards.inc>
-#include <retire_data.inc>
+    namespace vx_scan_helpers      // the anonymous namespace of src/dhp.cpp (unique namespaces are not supported by the front end): body-only fragment under a named one
+#include <scan_helpers.inc>
+    using namespace vx_scan_helpers;
 #include <scan.inc>
 #include <help_scan.inc>
 #include <detach_all_thread.inc>
@@ -190,6 +190,26 @@ extern "C" void w_dhp_scan(size_t n, unsigned wrec, unsigned wguards) {
     report_retired(recs[0]);
     for (unsigned i = 0; i < VX_NREC; ++i) { recs[i]->retired_.current_block_ = recs[i]->retired_.list_head_; if (recs[i]->retired_.list_head_) recs[i]->retired_.current_cell_ = recs[i]->retired_.list_head_->first(); }
     s.thread_list_.store(nullptr, atomics::memory_order_relaxed);
+}
+
+// ---- retire_data() alone, over a long sorted hazard list (the search inside it is exercised beyond the sizes a bounded scan reaches)
+extern "C" void* vx_sorted_ptr(size_t i);
+extern "C" size_t w_dhp_retire_data_wide(size_t n, void* p) {
+    BUILD_WORLD
+    hp_vector plist; plist.reserve( n );
+    for (size_t i = 0; i < n; ++i) plist.push_back( vx_sorted_ptr( i ));
+    retired_array& ra = recs[0]->retired_;
+    vx_pre_retired(p);
+    cds::gc::dhp::retired_ptr rp(p, vf_dispose);
+    ra.push(rp);
+    vx_world_built();
+    // what scan() does around the call
+    ra.current_block_ = ra.list_head_; ra.current_cell_ = ra.current_block_->first();
+    size_t freed = retire_data( plist, ra, ra.list_head_, 1 );
+    report_retired(recs[0]);
+    ra.current_block_ = ra.list_head_; ra.current_cell_ = ra.list_head_->first();
+    s.thread_list_.store(nullptr, atomics::memory_order_relaxed);
+    return freed;
 }
 
 // ---- retire(): body of cds::gc::DHP::retire( T*, void(*)(void*))
